@@ -1,6 +1,7 @@
 package props
 
 import (
+	"encoding/json"
 	"fmt"
 	"reflect"
 	"strings"
@@ -357,7 +358,89 @@ var c20Helpers = []c20Helper{
 		_ = l.Append(it)
 		return ""
 	}},
-	{"MarshalJSON", []string{"top", "list", "prop"}, func(it ap.Item) string { _, _ = ap.MarshalJSON(it); return "" }},
+	{"MarshalJSON", []string{"top", "list", "prop"}, func(it ap.Item) string {
+		// neutral result: nothing, or a document - one that parses and that the library's own reader accepts
+		b, err := ap.MarshalJSON(it)
+		if err != nil || len(b) == 0 {
+			return ""
+		}
+		if !json.Valid(b) {
+			return fmt.Sprintf("what was written is not JSON: %q", b)
+		}
+		if _, derr := ap.UnmarshalJSON(b); derr != nil {
+			return fmt.Sprintf("what was written is refused by the reader (%v): %q", derr, b)
+		}
+		return ""
+	}},
+	// the same for list properties: a list that holds the nil-like item among real members (in front, behind, between, on both
+	// sides, alone) is written as the list of the real members
+	{"encoders(one list property)", []string{"top"}, func(it ap.Item) string {
+		a, b := ap.IRI("https://example.com/members/a"), ap.IRI("https://example.com/members/b")
+		for _, st := range vocab.StructTypes {
+			mk := func(f vocab.Field, l ap.ItemCollection) ap.Item {
+				p := reflect.New(st)
+				p.Elem().FieldByName("ID").SetString("https://example.com/sparse")
+				p.Elem().FieldByName("Type").SetString(string(vocab.DefaultType[st.Name()]))
+				if l != nil {
+					p.Elem().Field(f.Index).Set(reflect.ValueOf(l))
+				}
+				return p.Interface().(ap.Item)
+			}
+			for _, f := range vocab.Fields(st) {
+				if f.Kind != vocab.KItems {
+					continue
+				}
+				for _, c := range []struct {
+					name        string
+					with, clean ap.ItemCollection
+				}{
+					{"[nil]", ap.ItemCollection{it}, nil},
+					{"[nil a]", ap.ItemCollection{it, a}, ap.ItemCollection{a}},
+					{"[a nil]", ap.ItemCollection{a, it}, ap.ItemCollection{a}},
+					{"[nil a b]", ap.ItemCollection{it, a, b}, ap.ItemCollection{a, b}},
+					{"[a nil b]", ap.ItemCollection{a, it, b}, ap.ItemCollection{a, b}},
+					{"[nil a nil b nil]", ap.ItemCollection{it, a, it, b, it}, ap.ItemCollection{a, b}},
+					{"[nil nil a]", ap.ItemCollection{it, it, a}, ap.ItemCollection{a}},
+				} {
+					x, base := mk(f, c.with), mk(f, c.clean)
+					// (a list of one may be written as an array or as the bare member: what counts is what the document says)
+					xj, err := ap.MarshalJSON(x)
+					if err != nil || !json.Valid(xj) {
+						return fmt.Sprintf("%s with %s = %s is written as %q (err=%v)", st.Name(), f.Name, c.name, xj, err)
+					}
+					if xb, derr := ap.UnmarshalJSON(xj); derr != nil {
+						return fmt.Sprintf("%s with %s = %s is written as %q, which the reader refuses: %v", st.Name(), f.Name, c.name, xj, derr)
+					} else if d := vocab.DiffTop(base, xb, vocab.JSONForm); len(d) > 0 {
+						return fmt.Sprintf("%s with %s = %s is written as %q, which does not say what the value with the real members only says: %v", st.Name(), f.Name, c.name, xj, d[0])
+					}
+					xg, err := ap.GobEncode(x)
+					if err != nil {
+						return fmt.Sprintf("%s with %s = %s: gob encoding fails with %v", st.Name(), f.Name, c.name, err)
+					}
+					back, derr := ap.GobDecode(xg)
+					if derr != nil {
+						return fmt.Sprintf("%s with %s = %s: what the gob encoder wrote does not decode: %v", st.Name(), f.Name, c.name, derr)
+					}
+					// the binary form may keep the place of a member that is nothing; the real members are all there, in their order
+					if sv, ok := vocab.StructOf(back); ok && sv.Type() == st {
+						if l, isList := sv.Field(f.Index).Interface().(ap.ItemCollection); isList {
+							var real ap.ItemCollection
+							for _, m := range l {
+								if !vocab.IsEmptyItem(m) {
+									real = append(real, m)
+								}
+							}
+							sv.Field(f.Index).Set(reflect.ValueOf(real))
+						}
+					}
+					if d := vocab.DiffTop(base, back, vocab.GobForm); len(d) > 0 {
+						return fmt.Sprintf("%s with %s = %s: stored and read back, its real members differ from the value with the real members only: %v", st.Name(), f.Name, c.name, d[0])
+					}
+				}
+			}
+		}
+		return ""
+	}},
 	// nothing is nothing: a value that holds the nil-like item in one property (and nothing else besides id and type) is written,
 	// by both encoders, exactly as the value that does not have that property - one property at a time, every item property of every type
 	{"encoders(one property)", []string{"top"}, func(it ap.Item) string {
@@ -423,6 +506,8 @@ func c20Place(n c20Nil, pos string) ap.Item {
 		// the same list handed over through a pointer (what ToItemCollection and the On* helpers themselves hand out)
 		l := ap.ItemCollection{ap.IRI("https://example.com/first"), n.it, c20Real()}
 		return &l
+	case "list-first":
+		return ap.ItemCollection{n.it, c20Real(), ap.IRI("https://example.com/last")}
 	case "list-after-object":
 		// behind an embedded object and behind a link: helpers that walk a list through a typed view stop at the first member they cannot
 		// view (an IRI in front hides what comes after it)
@@ -483,7 +568,7 @@ func c20Cells() []c20Cell {
 		positions := append([]string{}, h.positions...)
 		for _, p := range h.positions {
 			if p == "list" {
-				positions = append(positions, "list1", "list-after-object", "list-after-link", "list-ptr")
+				positions = append(positions, "list1", "list-after-object", "list-after-link", "list-ptr", "list-first")
 			}
 			if p == "prop" {
 				positions = append(positions, "prop-list1")
